@@ -1119,6 +1119,115 @@ func (p *gprover) proveD(goal glin, fs []gfact, depth int) (bool, string) {
 			}
 		}
 	}
+	if depth == 0 {
+		if ok, why := p.sentinelRule(goal, fs); ok {
+			return true, why
+		}
+	}
+	return false, ""
+}
+
+// sentinelRule: a goal G about a loop variable x, at a site where another variable y of the same loop is known
+// to differ from a constant s (y != s, typically "y was set": s is the value y starts with). Proves, by induction
+// over the visits of the loop header, that y != s implies G(x) there: on every edge into the header, either y
+// arrives as s (nothing to show), or y arrives unchanged and x unchanged (induction hypothesis), or G holds for
+// the value x arrives with, from what is known on that edge. Covers `first, second := -1, -1; for … { if first
+// == -1 { first = i } else { second = i } }; if second != -1 { use s[:first] }`.
+func (p *gprover) sentinelRule(goal glin, fs []gfact) (bool, string) {
+	for xs, k1 := range goal.t {
+		if xs.isLen || k1 == 0 {
+			continue
+		}
+		x, ok := xs.v.(*ssa.Phi)
+		if !ok || !isLoopHeader(x.Block()) {
+			continue
+		}
+		h := x.Block()
+		loop := naturalLoop(h)
+		// everything else in the goal is fixed while the loop runs
+		fixed := true
+		for s2 := range goal.t {
+			if s2 == xs {
+				continue
+			}
+			if in, ok := s2.v.(ssa.Instruction); ok && loop[in.Block()] {
+				fixed = false
+			}
+		}
+		if !fixed {
+			continue
+		}
+		for _, f := range fs {
+			if !f.neq || len(f.e.t) != 1 {
+				continue
+			}
+			for ys, k2 := range f.e.t {
+				y, ok := ys.v.(*ssa.Phi)
+				if !ok || ys.isLen || y == x || y.Block() != h || (k2 != 1 && k2 != -1) {
+					continue
+				}
+				// the ways into the header, with the values x and y arrive with; values merged inside the body
+				// (phis of a block where branches of the body meet) are taken apart into the branches
+				type way struct {
+					from   *ssa.BasicBlock
+					e1, e2 ssa.Value
+				}
+				var ways []way
+				var expand func(w way, depth int)
+				expand = func(w way, depth int) {
+					var at *ssa.BasicBlock
+					for _, e := range []ssa.Value{w.e1, w.e2} {
+						if ph, ok := e.(*ssa.Phi); ok && ph.Block() != h && loop[ph.Block()] && (ph.Block() == w.from || ph.Block().Dominates(w.from)) {
+							if at == nil || at.Dominates(ph.Block()) {
+								at = ph.Block()
+							}
+						}
+					}
+					if at == nil || depth > 4 {
+						ways = append(ways, w)
+						return
+					}
+					for q, pq := range at.Preds {
+						n := way{from: pq, e1: w.e1, e2: w.e2}
+						if ph, ok := w.e1.(*ssa.Phi); ok && ph.Block() == at {
+							n.e1 = ph.Edges[q]
+						}
+						if ph, ok := w.e2.(*ssa.Phi); ok && ph.Block() == at {
+							n.e2 = ph.Edges[q]
+						}
+						expand(n, depth+1)
+					}
+				}
+				for j, pj := range h.Preds {
+					expand(way{pj, x.Edges[j], y.Edges[j]}, 0)
+				}
+				all := len(ways) > 0 && len(ways) <= 32
+				for _, w := range ways {
+					if !all {
+						break
+					}
+					e1, e2 := w.e1, w.e2
+					if c, ok := gConstInt(e2); ok && k2*c+f.e.c == 0 {
+						continue // y arrives as the sentinel
+					}
+					if e2 == ssa.Value(y) && e1 == ssa.Value(x) {
+						continue // both unchanged: induction hypothesis
+					}
+					g2 := goal.add(gs(xs), -k1).add(p.val(e1), k1)
+					facts := p.facts(w.from)
+					if e2 == ssa.Value(y) {
+						facts = append(append([]gfact{}, facts...), f)
+					}
+					if ok, _ := p.proveD(g2, facts, 1); !ok {
+						all = false
+					}
+				}
+				if all {
+					return true, fmt.Sprintf("sentinel rule: by induction over the loop, %s != 0 implies the goal", p.str(f.e))
+				}
+			}
+		}
+	}
 	return false, ""
 }
 
